@@ -120,8 +120,8 @@ def to_form(trajs, form, rng):
         out = []
         for k, t in enumerate(trajs):
             hi = max(t) if t else 0
-            fam = [dt for dt in (np.int8, np.uint8, np.int16, np.uint16, np.int32, np.uint32, np.int64) if hi <= np.iinfo(dt).max]
-            out.append(np.array(t, dtype=fam[0] if k % 2 == 0 else (fam[1] if len(fam) > 1 else fam[0])))
+            fam = (np.int8, np.int16, np.int32, np.int64) if k % 2 == 0 else (np.uint8, np.uint16, np.uint32, np.int64)
+            out.append(np.array(t, dtype=[dt for dt in fam if hi <= np.iinfo(dt).max][0]))
         return out
     if form == 'statetraj':
         return mh.StateTraj(as_arrays(trajs, rng))
